@@ -191,6 +191,54 @@ pub proof fn lemma_nested_blocks(e0: Expression, ids: Ids)
     reveal_with_fuel(wf, 3);
 }
 
+// the and3 over the blocks of an all(..) over nested blocks, one block at a time (keeps and3 / block_results folded at the use site)
+pub proof fn lemma_blocks_step(g: Vec<Expression>, ids: Ids, elems: Seq<V>, parent: Expression, j: int)
+    requires
+        0 <= j < g.len(),
+        forall|i: int| 0 <= i < g.len() ==> decreases_to!(parent => #[trigger] g[i]) && lvl(g[i]) <= lvl(parent),
+    ensures
+        ({
+            let br = block_results(g, ids, elems, parent);
+            &&& br.len() == g.len()
+            &&& br[j] == or3(obj_results(g[j], ids, elems))
+            &&& (br[j] == SolverResult::True ==> and3(br.skip(j)) == and3(br.skip(j + 1)))
+            &&& (br[j] != SolverResult::True ==> and3(br.skip(j)) == br[j])
+        }),
+{
+    let br = block_results(g, ids, elems, parent);
+    assert(br.skip(j)[0] == br[j]);
+    assert(br.skip(j).skip(1) =~= br.skip(j + 1));
+}
+
+pub proof fn lemma_blocks_ends(g: Vec<Expression>, ids: Ids, elems: Seq<V>, parent: Expression)
+    requires forall|i: int| 0 <= i < g.len() ==> decreases_to!(parent => #[trigger] g[i]) && lvl(g[i]) <= lvl(parent),
+    ensures
+        ({
+            let br = block_results(g, ids, elems, parent);
+            &&& br.len() == g.len()
+            &&& and3(br.skip(0)) == and3(br)
+            &&& and3(br.skip(g.len() as int)) == SolverResult::True
+        }),
+{
+    let br = block_results(g, ids, elems, parent);
+    assert(br.skip(0) =~= br);
+    assert(br.skip(g.len() as int).len() == 0);
+}
+
+pub proof fn lemma_obj_results_len(x: Expression, ids: Ids, elems: Seq<V>)
+    ensures obj_results(x, ids, elems).len() == elems.len(),
+{
+}
+
+// one element's result inside obj_results, stated without unfolding sem3 at the use site
+pub proof fn lemma_obj_result_at(x: Expression, ids: Ids, elems: Seq<V>, k: int)
+    requires 0 <= k < elems.len(),
+    ensures
+        obj_results(x, ids, elems).len() == elems.len(),
+        obj_results(x, ids, elems)[k] == (match elems[k] { V::Object(o) => sem3(x, ids, DocM::Obj(o)), _ => SolverResult::Missing }),
+{
+}
+
 // ---- Matrix: structural facts about the cells (proved once)
 pub proof fn lemma_matrix_cells(e0: Expression, ids: Ids)
     requires wf(e0, ids), e0 is Matrix,
